@@ -285,7 +285,7 @@ type RoutingHeader struct {
 }
 
 func (h *RoutingHeader) Len() uint16 {
-	return 8 * uint16(h.HEL+1)
+	return 8 * (uint16(h.HEL) + 1)
 }
 
 func (h *RoutingHeader) MarshalBinary() (data []byte, err error) {
